@@ -84,6 +84,10 @@ func init() {
 		},
 		"(reflect.rtype).FieldByName": func(fr *frame, a []value) value {
 			t := a[0].(rtype).t
+			if _, isStruct := t.Underlying().(*types.Struct); !isStruct {
+				// as the real reflect package
+				rtPanic(fr.i, "reflect: FieldByName of non-struct type "+t.String())
+			}
 			path, _, ok := findField(t, a[1].(string))
 			st, isStruct := t.Underlying().(*types.Struct)
 			if !ok || !isStruct || len(path) != 1 {
